@@ -230,8 +230,11 @@ CHECKS = {
               "the small encodings. Entry points: Transaction / SequencerBlock / FilteredSequencerBlock / SubmittedMetadata / "
               "SubmittedRollupData / RollupData ::try_from_raw after prost decoding, and the conductor's decode_raw_blobs. Oracle: no panic; "
               "an accepted value re-encodes to a fixed point, its signature and Merkle proofs verify when recomputed independently from the "
-              "accepted fields, and the checked forms derived from it (filtered block, Celestia metadata and items) validate."),
-        note="Mutations outside the menu (two independent edits in the large encodings, forgeries needing a fresh signature) are not covered; the sequencer's CheckedTransaction::new is reached through Transaction::try_from_raw, whose decoding is covered here.",
+              "accepted fields, and the checked forms derived from it (filtered block, Celestia metadata and items) validate. Stage checktx: every "
+              "truncation and single-node mutation of 4 valid signed transactions (thorough: pairs for the transfer) through the sequencer's real "
+              "service::mempool::check_tx against a committed chain state and a fresh real mempool; no panic, and accepted bytes are a validly "
+              "signed transaction stored under the hash of the bytes."),
+        note="Mutations outside the menu (two independent edits in the large encodings, forgeries needing a fresh signature) are not covered.",
         design_ref="2 C17",
     ),
     "C18": dict(
